@@ -13,18 +13,20 @@ def T(name, variant, *args, **kw):
 CHECK = {
   'id': 'C20',
   'level': 'model_checking',
-  'rule': ('explicit-state breadth-first search over all histories up to the depth bound of a 45-operation alphabet on ONE real File '
+  'rule': ('explicit-state breadth-first search over all histories up to the depth bound of a 49-operation alphabet on ONE real File '
            'object and two paths in a per-run scratch directory: sopen(path 0|1, "w+b"|"rb"|"r+b"|"ab") (also on an already open File and on '
            'the second path), sclose, stell, seof, sflush, swrite("" | "x" | "\\0y\\0" | 8193-byte block), sread(0|1|3|8193), '
-           'sseek({0,1,-1} x {SEEK_SET,SEEK_CUR,SEEK_END}), sseek(stell, SEEK_SET) (a seek that moves nowhere), print_to("%s %li;","k",42), scan_from of that record, '
+           'sseek({0,1,-1} x {SEEK_SET,SEEK_CUR,SEEK_END}), sseek(stell, SEEK_SET) (a seek that moves nowhere), print_to("%s %li;", "k" | 257 x "k", 42), scan_from of such a record, '
            'with(f in file){ nothing | sclose | stell | swrite | sread | print_to | sopen }, del followed by new_raw(File) / new(File) / '
-           'new_raw(File,path,mode), and one environment operation: another stream appends a byte to the file the File has open (only while the File '
+           'new_raw(File,path,mode) / a stack-allocated File (released with destruct only), destruct(file) with the object kept (it is then a File that is '
+           'not open), construct(file,path,mode) on the existing object, and one environment operation: another stream appends a byte to the file the File has open (only while the File '
            'has no pending output).  Every history runs on the real File, on a twin plain FILE* (same stdio calls, same order, own files) and on a '
            'byte-array reference model; the state key is the model: bytes of both files, open flag, path, mode, position, eof flag, direction of '
            'the last transfer, refined by glibc\'s bookkeeping of the real stream (flags, buffer offsets) whenever that differs from the twin stream\'s - '
            'never a verdict, it only keeps a real stream that has silently departed from the model from being merged with the model state; states are re-entered by replaying their shortest history on freshly removed files.  Compared on every execution: '
            'bytes returned by every complete sread and the values scanned by scan_from against the bytes written (model) and the twin; return '
-           'counts (item count of the twin or byte count); seof and stell against feof and ftell of the twin after EVERY transition (and as operations of '
+           'counts (item count of the twin or byte count); seof and stell against feof and ftell of the twin after EVERY transition that leaves the File open, stell must raise IOError without any stdio '
+           'call after EVERY transition that leaves it not open (and as operations of '
            'their own); on-disk contents of the real files against '
            'model and twin files after every close (sclose, re-open, del, leaving a with block, end of history); IOError and no stdio call for '
            'every operation on a File that is not open; link-time interposed fopen/fclose/fread/fwrite/fseek/ftell/fflush/feof/vfprintf/vfscanf: '
@@ -32,10 +34,13 @@ CHECK = {
            'leaves undefined (input directly after output and output directly after input that did not reach end-of-file, without a flush or '
            'seek) and reads while the end-of-file indicator is set although the file has grown are not enabled; reads on "ab", writes on "rb", seeks before the start and fopen of a missing file are C-library-defined '
            'failures: only agreement with the twin afterwards is required.  distinct_nontrivial = states whose discovering transition read back '
-           'at least one previously written byte correctly (sread / scan_from) or closed a non-empty file whose on-disk bytes were compared'),
+           'at least one previously written byte correctly (sread / scan_from) or closed a non-empty file whose on-disk bytes were compared.  '
+           'Ladder instances: print_to of one N-character %s conversion followed by %li (N = 0..300, 511..513, 1023..1025, 4095..4097, 5000, 8191..8193, '
+           '20000) on "w+b" / after re-opening "rb" / twice on "ab", read back with sread and scan_from, compared with the text printed, fprintf/fread/'
+           'fscanf on the twin and the twin file on disk'),
   'bounds': {
-    'quick': 'all histories of depth <= 5 over the full 45-operation alphabet (gcc build); depth <= 4 under ASan+UBSan',
-    'thorough': 'all histories of depth <= 7 over the full 45-operation alphabet (gcc build); depth <= 6 under ASan+UBSan',
+    'quick': 'all histories of depth <= 5 over the full 49-operation alphabet (gcc build); depth <= 4 under ASan+UBSan; print ladder N = 0..300 and 14 larger sizes up to 20000 x 3 variants (gcc and ASan)',
+    'thorough': 'all histories of depth <= 7 over the full 49-operation alphabet (gcc build); depth <= 6 under ASan+UBSan; the same print ladder',
   },
   'assumptions': [
     'glibc stdio is the reference for the twin stream; a disagreement between the twin and the harness\'s own byte-array model is reported as a harness error (exit 2), never as a verdict',
